@@ -460,6 +460,15 @@ fn c14_hardwrap() {
         for l in &lines { for e in l.iter() { if let TaggedLineElement::FragmentStart(f) = e { if f == "x" { n += 1; } } } }
         if n != 1 { found("c14_hardwrap", &format!("width={} html={}", w, d), &format!("{} fragment markers named x in the output (expected exactly 1)", n)); }
     }}
+    // a marker recorded right after an over-wide character that had to overflow, with the element's text in a later block (D18)
+    let docs2 = ["<div>\u{5b57}<span id=x><p>text</p></span></div>", "<div>a \u{5b57}<span id=x><ul><li>t</ul></span></div>", "<p>\u{5b57}\u{5b57}<span id=x><blockquote>q</blockquote></span></p>"];
+    for d in docs2 { for w in 1..=3usize {
+        cases += 1;
+        let lines = match config::rich().allow_width_overflow().lines_from_read(d.as_bytes(), w) { Ok(l) => l, Err(_) => continue };
+        let mut n = 0;
+        for l in &lines { for e in l.iter() { if let TaggedLineElement::FragmentStart(f) = e { if f == "x" { n += 1; } } } }
+        if n != 1 { found("c14_hardwrap", &format!("width={} allow_width_overflow html={}", w, d), &format!("{} fragment markers named x in the output (expected exactly 1)", n)); }
+    }}
     println!("NONE {}", cases);
 }
 
@@ -504,6 +513,7 @@ fn main() {
         "c19_order" => c19_order(),
         "dbg" => dbg(),
         "dbgcss" => dbgcss(),
+        "dbgfrag" => dbgfrag(),
         "c16_trivial" => c16_trivial(),
         "c14_hardwrap" => c14_hardwrap(),
         "c01_specificity" => c01_specificity(),
@@ -516,6 +526,25 @@ fn main() {
         "c02_tables" => c02_tables(),
         "c03_tables" => c03_tables(),
         _ => { eprintln!("unknown mode"); std::process::exit(2) }
+    }
+}
+#[allow(dead_code)]
+pub fn dbgfrag() {
+    // replay dbgfrag <width> <flags: o=allow_width_overflow> <html> : the elements of every output line
+    use html2text::render::TaggedLineElement;
+    let a: Vec<String> = std::env::args().collect();
+    let width: usize = a.get(2).and_then(|s| s.parse().ok()).unwrap_or(20);
+    let flags = a.get(3).cloned().unwrap_or_default();
+    let html = a.get(4).cloned().unwrap_or_default();
+    let mut cfg = config::rich();
+    if flags.contains('o') { cfg = cfg.allow_width_overflow(); }
+    match cfg.lines_from_read(html.as_bytes(), width) {
+        Ok(lines) => for l in lines {
+            let mut out = String::new();
+            for e in l.iter() { match e { TaggedLineElement::FragmentStart(f) => out.push_str(&format!("<#{}>", f)), TaggedLineElement::Str(ts) => out.push_str(&format!("{:?}", ts.s)) } }
+            println!("{}", out);
+        },
+        Err(e) => println!("ERR: {:?}", e),
     }
 }
 #[allow(dead_code)]
